@@ -129,6 +129,28 @@ CLAIMS = {
         note=BASE_NOTE + "Nested predicate-form values (sub-queries as operands) are compared with the flattened explicit query "
              "by correspondence only. Parameter order comes from inspect.signature (trusted).",
         tech="Lean 4 proof (structural equality of constructed trees) + tree-shape and row correspondence"),
+    'C11': dict(
+        text="c11_rows (the instances are the tagged rows of the query selecting the head's argument expressions), c11_sound "
+             "(every instance carries the values under ONE admissible satisfying assignment: no mixing, none for a "
+             "non-satisfying assignment), c11_complete, c11_one_per_binding (each true output of the body yields exactly one "
+             "instance built from it), c11_count (no instance twice). Correspondence: heads with variables, object- and "
+             "value-valued attribute expressions, falsy constants; bodies with and/or/not/predicates; ambient none/query/rule; "
+             "caching on/off; twice; multiset of (class, field identities).",
+        note=BASE_NOTE + "Object reuse (no copying) is a frame property of the model; on the implementation fields are compared by "
+             "dataset identity. type.__call__/dataclass construction is trusted.",
+        tech="Lean 4 proof (reduction to C02 + closed-argument lemma) + differential correspondence"),
+    'C12': dict(
+        text="Rules.lean transliterates refinement()/alternative_or_next (refineAt, altAt: climb while left operand) and "
+             "ExceptIf/Alternative evaluation. rt_closed (a constructed tree yields its truth and the conclusion the selectors "
+             "prescribe), rt_dist, c12_rule_tree_rows (single-variable rules: one instance per firing object in domain order with "
+             "exactly that conclusion), c12_expected_fire (the prescribed tree's conclusion IS the recursive ripple-down reference "
+             "fireRule, any nesting of refinements and alternatives). The imperative construction equals the prescribed tree: "
+             "c12_build_expected_small, exhaustive decide for all programs up to 4 blocks (a test, stated as such) + tree-shape "
+             "correspondence with the real tree on every run.",
+        note=BASE_NOTE + "Branch-closed conditions, one Add per branch. The equality construction = prescribed tree is not proved "
+             "for all sizes. With caching enabled re-evaluation of trees with alternatives is known finding C05-F4.",
+        tech="Lean 4 proof (semantics of the selectors by induction; RDR reference by induction on the surface program) + "
+             "kernel-checked small-scope test of the construction + tree-shape and conclusion correspondence"),
 }
 
 ALL = ['C%02d' % i for i in range(1, 21)]
